@@ -10,12 +10,13 @@ Definition arg_warn (a : arg) : Prop := Forall dwarn (a_bag a) /\ Forall dwarn (
 Definition ctx_warn (c : ctx) : Prop :=
   match c_spec c with Some o => owarn o | None => True end /\ owarn (c_pending c) /\
   Forall dwarn (c_bag c) /\ Forall dwarn (c_cand c) /\ Forall arg_warn (c_args c) /\
-  Forall (fun x : bool * bool * bool => snd (fst x) = false) (c_silent c).
+  Forall (fun x : bool * bool * bool => snd (fst x) = false) (c_silent c) /\ c_saved c = false.
 
 Record Wn (g : glob) (st : list ctx) : Prop := mkWn {
   wE : forall m, g_errored g m = false;
   wF : forall m, g_faulty g m = false;
   wD : Forall dwarn (g_delivered g);
+  wC : forall m, g_scanerr g m = false;
   wS : Forall ctx_warn st
 }.
 
@@ -36,7 +37,7 @@ Lemma wn_emit_base : forall e c g r, Wn g (c :: r) -> dwarn e ->
 Proof.
   intros e c g r W D. unfold emit_base. destruct (c_kind c); simpl.
   - apply wn_to_user; assumption.
-  - eapply wn_set_top; [exact W|]. pose proof (wn_top _ _ _ W) as [H1 [H2 [H3 [H4 [H5 H6]]]]].
+  - eapply wn_set_top; [exact W|]. pose proof (wn_top _ _ _ W) as [H1 [H2 [H3 [H4 [H5 [H6 H7s]]]]]].
     unfold ctx_warn. simpl. repeat split; try assumption. constructor; assumption.
 Qed.
 
@@ -44,7 +45,7 @@ Lemma wn_emit_parser : forall e c g r, Wn g (c :: r) -> dwarn e ->
   Wn (snd (emit_parser e c g)) (fst (emit_parser e c g) :: r).
 Proof.
   intros e c g r W D. unfold emit_parser.
-  pose proof (wn_top _ _ _ W) as [H1 [H2 [H3 [H4 [H5 H6]]]]].
+  pose proof (wn_top _ _ _ W) as [H1 [H2 [H3 [H4 [H5 [H6 H7s]]]]]].
   destruct (c_args c) as [|a ar] eqn:A.
   - destruct (c_spec c) eqn:S.
     + simpl. eapply wn_set_top; [exact W|]. unfold ctx_warn. simpl. rewrite A. repeat split; try assumption; try constructor.
@@ -55,14 +56,14 @@ Qed.
 
 Lemma ctx_warn_set_cur_panic : forall b c, ctx_warn c -> ctx_warn (set_cur_panic b c).
 Proof.
-  intros b c [H1 [H2 [H3 [H4 [H5 H6]]]]]. unfold set_cur_panic. destruct (c_args c) as [|a ar] eqn:A.
+  intros b c [H1 [H2 [H3 [H4 [H5 [H6 H7s]]]]]]. unfold set_cur_panic. destruct (c_args c) as [|a ar] eqn:A.
   - unfold ctx_warn. simpl. rewrite A. repeat split; try assumption; try constructor.
   - unfold ctx_warn. simpl. repeat split; try assumption. inversion H5; subst. constructor; assumption.
 Qed.
 
 Lemma ctx_warn_set_cur_cand : forall l c, ctx_warn c -> Forall dwarn l -> ctx_warn (set_cur_cand l c).
 Proof.
-  intros l c [H1 [H2 [H3 [H4 [H5 H6]]]]] L. unfold set_cur_cand. destruct (c_args c) as [|a ar] eqn:A.
+  intros l c [H1 [H2 [H3 [H4 [H5 [H6 H7s]]]]]] L. unfold set_cur_cand. destruct (c_args c) as [|a ar] eqn:A.
   - unfold ctx_warn. simpl. rewrite A. repeat split; try assumption; try constructor.
   - unfold ctx_warn. simpl. repeat split; try assumption. inversion H5; subst. constructor; [|assumption].
     destruct H7 as [B C]. split; assumption.
@@ -70,7 +71,7 @@ Qed.
 
 Lemma cur_cand_warn : forall c, ctx_warn c -> Forall dwarn (cur_cand c).
 Proof.
-  intros c [H1 [H2 [H3 [H4 [H5 H6]]]]]. unfold cur_cand. destruct (c_args c) as [|a ar]; [assumption|].
+  intros c [H1 [H2 [H3 [H4 [H5 [H6 H7s]]]]]]. unfold cur_cand. destruct (c_args c) as [|a ar]; [assumption|].
   inversion H5; subst. destruct H7; assumption.
 Qed.
 
@@ -98,11 +99,11 @@ Proof.
   unfold ctx_warn; simpl. repeat split; constructor.
 Qed.
 
-Lemma step_wn : forall s ev s', Wn (s_g s) (s_stack s) -> warn_only ev = true -> step s ev = Some s' ->
+Lemma step_wn : forall cfg s ev s', Wn (s_g s) (s_stack s) -> warn_only ev = true -> step cfg s ev = Some s' ->
   Wn (s_g s') (s_stack s').
 Proof.
-  intros [g st] ev s' W WO Hs. unfold step in Hs. simpl in *. destruct st as [|c rest]; [discriminate|].
-  pose proof (wn_top _ _ _ W) as CW. pose proof CW as [H1 [H2 [H3 [H4 [H5 H6]]]]].
+  intros cfg [g st] ev s' W WO Hs. unfold step in Hs. simpl in *. destruct st as [|c rest]; [discriminate|].
+  pose proof (wn_top _ _ _ W) as CW. pose proof CW as [H1 [H2 [H3 [H4 [H5 [H6 H7s]]]]]].
   destruct ev; simpl in WO; try discriminate WO.
   - (* EErr *)
     destruct o; try discriminate WO; destruct l; try discriminate WO.
@@ -151,15 +152,18 @@ Proof.
   - (* EInstBegin *)
     destruct (mem d (g_seen g)); [|discriminate]. inversion Hs; subst; clear Hs. simpl.
     destruct W. constructor; try assumption. constructor; [|assumption].
-    unfold ctx_warn; simpl. repeat split; constructor.
+    unfold ctx_warn; simpl. repeat split; try (constructor; fail). apply wF0.
   - (* EInstEnd *)
     destruct (c_kind c); [discriminate|]. destruct (c_args c); [|discriminate].
     destruct (c_spec c); [discriminate|]. destruct (c_silent c); [|discriminate].
     destruct rest as [|p rest']; [discriminate|]. inversion Hs; subst; clear Hs. simpl.
-    destruct W. inversion wS0; subst. constructor; try assumption.
-    inversion H8; subst. constructor; [|assumption].
-    destruct keep; [|assumption]. apply ctx_warn_set_cur_cand; [assumption|].
-    apply Forall_app. split; [assumption | apply cur_cand_warn; assumption].
+    destruct W. inversion wS0; subst.
+    assert (WS : Forall ctx_warn ((if keep then set_cur_cand (c_bag c ++ cur_cand p) p else p) :: rest')).
+    { inversion H8; subst. constructor; [|assumption].
+      destruct keep; [|assumption]. apply ctx_warn_set_cur_cand; [assumption|].
+      apply Forall_app. split; [assumption | apply cur_cand_warn; assumption]. }
+    destruct (cfg_inst_restores cfg); constructor; simpl; try assumption.
+    intros m. unfold upd. destruct (m =? c_mod c); [exact H7s | apply wF0].
   - (* EImportBegin *)
     destruct (c_kind c); [|discriminate]. destruct (c_args c); [|discriminate].
     destruct (c_spec c); [discriminate|]. destruct (mem m (g_seen g)); [discriminate|].
@@ -171,32 +175,32 @@ Proof.
     destruct (c_spec c); [discriminate|]. destruct (c_silent c); [|discriminate].
     inversion Hs; subst; clear Hs. simpl.
     destruct W. constructor; simpl; try assumption.
-    + intros m. unfold upd. destruct (m =? c_mod c); [apply wE0 | apply wF0].
+    + intros m. unfold upd. destruct (m =? c_mod c); [rewrite wE0, wC0, andb_false_r; reflexivity | apply wF0].
     + inversion wS0; assumption.
 Qed.
 
-Lemma run_wn : forall tr s s', Wn (s_g s) (s_stack s) -> forallb warn_only tr = true -> run s tr = Some s' ->
+Lemma run_wn : forall cfg tr s s', Wn (s_g s) (s_stack s) -> forallb warn_only tr = true -> run cfg s tr = Some s' ->
   Wn (s_g s') (s_stack s').
 Proof.
-  induction tr as [|ev r IH]; intros s s' W A H; simpl in *.
+  intros cfg. induction tr as [|ev r IH]; intros s s' W A H; simpl in *.
   - inversion H; subst. exact W.
   - apply andb_true_iff in A. destruct A as [A1 A2].
-    destruct (step s ev) as [s1|] eqn:E; [|discriminate]. eapply IH; [|exact A2|exact H]. eapply step_wn; eauto.
+    destruct (step cfg s ev) as [s1|] eqn:E; [|discriminate]. eapply IH; [|exact A2|exact H]. eapply step_wn; eauto.
 Qed.
 
-Lemma warnings_never_fail : forall tr s lm,
-  complete tr s -> forallb warn_only tr = true ->
+Lemma warnings_never_fail : forall cfg tr s lm,
+  complete cfg tr s -> forallb warn_only tr = true ->
   any_faulty s = false /\ delivered_error s = false /\
-  exit_status (compile lm true s) = 0 /\ artifact (compile lm true s) = true.
+  exit_status (compile cfg lm true s) = 0 /\ artifact (compile cfg lm true s) = true.
 Proof.
-  intros tr s lm [R E] A. pose proof (run_wn tr init s wn_init A R) as W. destruct W.
+  intros cfg tr s lm [R E] A. pose proof (run_wn cfg tr init s wn_init A R) as W. destruct W.
   assert (AF : any_faulty s = false).
   { unfold any_faulty. apply not_true_is_false. intros H. apply existsb_exists in H. destruct H as [m [_ H]].
     rewrite wF0 in H. discriminate H. }
   assert (DE : delivered_error s = false).
   { unfold delivered_error. apply not_true_is_false. intros H. apply existsb_exists in H. destruct H as [e [Hin H]].
     rewrite Forall_forall in wD0. specialize (wD0 e Hin). unfold dwarn in wD0. congruence. }
-  split; [exact AF|]. split; [exact DE|]. unfold compile. rewrite AF, andb_false_r. split; reflexivity.
+  split; [exact AF|]. split; [exact DE|]. unfold compile, root_faulty. rewrite AF, andb_false_r, wF0, andb_false_r. split; reflexivity.
 Qed.
 
 (* non-vacuity: a run with a warning (the `...` statement) in the root and in an imported module *)
@@ -205,9 +209,9 @@ Definition trace_warnings : list event :=
 
 Lemma warnings_never_fail_nonvacuous :
   forallb warn_only trace_warnings = true /\
-  exists s, complete trace_warnings s /\ length (delivered s) = 2.
+  exists s, complete pinned trace_warnings s /\ length (delivered s) = 2.
 Proof.
   split; [reflexivity|].
-  destruct (run init trace_warnings) as [s|] eqn:E; [|vm_compute in E; discriminate E].
+  destruct (run pinned init trace_warnings) as [s|] eqn:E; [|vm_compute in E; discriminate E].
   exists s. vm_compute in E. inversion E; subst. split; [split; reflexivity | reflexivity].
 Qed.
